@@ -52,6 +52,15 @@ Check (C01_resume_sound : forall st0 acts m1 s,
   sess_backed st s /\
   exists r, In r (n_cache st) /\ s_fab s = r_fab r /\ s_peer s = r_peer r /\ s_cats s = r_cats r /\
             record_backed st r).
+Check (C01_session_supersedes_records : forall st fr ms st' rs' out s,
+  node_wf st -> resp_run st RIdle fr ms = (st', rs', out) ->
+  n_sessions st' = n_sessions st ++ [s] -> s_reserved s = false ->
+  forall x, In x (n_cache st') -> r_fab x = s_fab s -> r_peer x = s_peer s -> r_cats x = s_cats s).
+Check (C01_initiator_session_supersedes_records : forall st fr fab peer ms st' out s,
+  node_wf st ->
+  init_run (io_node (init_start st fr fab peer)) (io_state (init_start st fr fab peer)) ms = (st', IDone true, out) ->
+  n_sessions st' = n_sessions st ++ [s] ->
+  forall x, In x (n_cache st') -> r_fab x = s_fab s -> r_peer x = s_peer s -> r_cats x = s_cats s).
 Check (C01_transcript_binding_partial : forall a b fra frb fab peer m1 m1' m2' m3' sa sb,
   initiator_full_sound a fra fab peer m1 m2' sa ->
   responder_full_sound b frb m1' m3' sb ->
